@@ -104,6 +104,13 @@ def r1(case, rec):
                 raise Violation('Hessian element [%d,%d] of a quadratic = %r, exact %r (diff %.3e > round-off bound %.3e; p=%r eps=%g)'
                                 % (i, j, float(H[i, j]), float(A[i, j]), abs(H[i, j] - A[i, j]), tol, list(p), eps))
     require(np.array_equal(H, H.T), 'Hessian not symmetric')
+    # where the one-sided stencil applies (a parameter at zero or tiny), the function is only ever evaluated at or above the
+    # parameter: a model need not be defined below it (a time, a rate, a mixture weight at its boundary)
+    for i in range(case['n']):
+        if one[i] or p[i] == 0:
+            low = min(x[i] for x in calls)
+            require(low >= p[i] - 1e-15 * abs(p[i]), 'get_hess evaluated the function at parameter %d = %r, below its value %r where the one-sided '
+                    'stencil applies (p=%r eps=%g)' % (i, float(low), float(p[i]), list(p), eps))
 
 
 @REG.relation('R2-gradient-exact', strategy=quad_case, quick=(3000, 8), thorough=(40000, 16))
